@@ -6,6 +6,7 @@ import (
 	"time"
 
 	"github.com/buildbuildio/pebbles/format"
+	"github.com/vektah/gqlparser/v2/ast"
 )
 
 type hashKey [20]byte
@@ -41,8 +42,27 @@ func (cp *CachedPlanner) hash(ctx *PlanningContext) hashKey {
 	s := format.NewBufferedFormatter().FormatSelectionSet(ctx.Operation.SelectionSet)
 	// the plan also depends on the operation type and name
 	s = string(ctx.Operation.Operation) + " " + ctx.Operation.Name + " " + s
+	// and on the type condition of every named fragment, which the formatter leaves out
+	s += fragmentTypeConditions(ctx.Operation.SelectionSet)
 	sha1 := sha1.Sum([]byte(s))
 	return sha1
+}
+
+// fragmentTypeConditions lists the type condition of every fragment spread of the
+// selection set, in document order
+func fragmentTypeConditions(selectionSet ast.SelectionSet) string {
+	var s string
+	for _, selection := range selectionSet {
+		switch sel := selection.(type) {
+		case *ast.Field:
+			s += fragmentTypeConditions(sel.SelectionSet)
+		case *ast.InlineFragment:
+			s += fragmentTypeConditions(sel.SelectionSet)
+		case *ast.FragmentSpread:
+			s += " " + sel.Name + " on " + sel.Definition.TypeCondition + fragmentTypeConditions(sel.Definition.SelectionSet)
+		}
+	}
+	return s
 }
 
 func (cp *CachedPlanner) clean() {
